@@ -89,14 +89,14 @@ EXTRA = {
  "C09": WIRE + CMD + " Arrival-order independence of reorderRecords over all 24 arrival orders.",
  "C10": WIRE + CMD + " updown reads '-' as any base (hardGaps=false at every reader call); arrival-order independence of the list writer; both readers give the same records under every line wrapping." + STD,
  "C11": WIRE + CMD + " Both writers of an entry point get the same reference-record name; the annotation-derived reference has one constant placeholder name in every branch of both entry points; without a window trimAlignment passes the pair unchanged.",
- "C12": WIRE + POOL + " What a pool worker emits for a record equals what it emits for that record alone, read after the whole batch (getSNPs, getLines, getVariantsSam, trimAlignment); code reachable from goroutines writes no package-level variable, and a goroutine literal assigns to its starter's variable only as a single collector whose completion token the starter receives first (necessary conditions of race freedom); only the result writers write to standard output in library code (os.Stdout values and fmt.Print*); no unstable sort receives map-ordered input containing distinguishable ties." + DEFER + BATCH,
+ "C12": WIRE + POOL + " What a pool worker emits for a record equals what it emits for that record alone, read after the whole batch (getSNPs, getLines, getVariantsSam, trimAlignment); code reachable from goroutines writes no package-level variable, and a goroutine literal assigns to its starter's variable only as a single collector whose completion token the starter receives first (necessary conditions of race freedom); only the result writers write to standard output in library code (os.Stdout values and fmt.Print*); no unstable sort receives map-ordered input containing distinguishable ties; a go statement in a loop hands its goroutines no slice, map or pointer (argument or captured variable) that one of them writes through; no caller writes through a table a function hands out by reference to package-level storage; a loop over a map does not take its first entry without a one-entry guard; re-order buffers park every waiting item under its own index; every re-ordering writer writes the same bytes for an item whatever was written before it (volume run) and hands every byte to the destination before it signals completion." + DEFER + BATCH,
  "C13": WIRE + CMD + " Reverse-strand feature: aggregate lines are ordered by position, not residue; both writers get the same reference-record name (the denominator excludes the same record the per-sequence writer skips).",
  "C14": WIRE + CMD + " ORIGIN keeps every IUPAC letter; the annotation-derived reference carries the same constant name in the GenBank and the GFF branch.",
  "C15": WIRE + CMD + " A record named like the reference is treated in stdin mode as in file mode; the readers agree structurally (C16).",
  "C16": " Files whose first, middle or last record has no sequence line are rejected by every reader (unequal record lengths); the five readers accept the same maximum line length; per-symbol counters in the readers are word-sized integers.",
  "C17": " The alphabet and encoding functions write no package-level state (purity).",
  "C18": WIRE + CMD.replace("Command layer (Engine D): the command's RunE literal is", "Command layer (Engine D): every command's RunE literal is"),
- "C19": WIRE + CMD.replace("Command layer (Engine D): the command's RunE literal is", "Command layer (Engine D): every command's RunE literal is") + " Path rule B4: on every path from a write to the next write or to the return, that write's error is examined, returned or sent." + DEFER,
+ "C19": WIRE + CMD.replace("Command layer (Engine D): the command's RunE literal is", "Command layer (Engine D): every command's RunE literal is") + " Path rule B4: on every path from a write to the next write or to the return, that write's error is returned, sent or handed on; a test of the error does not end the path - on the branch where it is non-nil the error must be reported before the next write and before the return. An error kept in a field of a writer object (sticky error writer) is followed to the readers of that field, each function that writes through the object must itself return or send what the field holds, and the write must sit on the nil side of a test of that field; a field of a value-receiver copy does not count." + DEFER,
 }
 
 NOT_YET = "static check for this property not built yet in this session (plan: DESIGN.md section 5); no claim is made"
